@@ -8,7 +8,7 @@ IDS = ["Alpha", "Beta", "Gamma", "Delta", "Eps", "Zeta", "Eta", "Theta", "Iota",
 
 
 # variant identifiers that also name things generated code mentions (associated types, prelude items)
-TIDS = ["None", "Discriminant", "type", "Err", "Error", "Iterator", "fn", "Output", "Default", "Option", "match", "Some"]
+TIDS = ["None", "Discriminant", "type", "Err", "Error", "Iterator", "fn", "Output", "Default", "\u00c9clair", "match", "Some"]
 
 
 # ... and lower-case identifiers that coincide with the names of locals and parameters in generated code
